@@ -1,10 +1,160 @@
-/- Line-protocol handlers for C05 (placeholder until the property is built). -/
-import PandoraModel.Model.Basic
+/- Line-protocol handlers for C05 (configuration checking): model and specification evaluation. -/
+import PandoraModel.Driver.ConfigJson
 
 namespace Pandora.Driver.C05
 open Lean (Json)
+open Pandora Pandora.Config Pandora.ConfigSpec Pandora.Driver.ConfigJson
 
-def handle (op : String) (_j : Json) : Except String Json :=
-  throw s!"unknown op {op}"
+def oracleOf (j : Json) : Except String Oracle :=
+  match j.getObjVal? "files" with
+  | .ok f => do return fileOracle (← filesOfJson f)
+  | .error _ => .ok noOracle
+
+/-- `Schema.accepts` on a table of values (translator / json_checker cross-check) -/
+def accepts (j : Json) : Except String Json := do
+  let s ← field j "schema" >>= schemaOfJson
+  let vs ← field j "values" >>= listOfJson jvalOfJson
+  let o ← oracleOf j
+  return Json.arr (vs.map (fun v => Json.bool (Schema.accepts o s v))).toArray
+
+/-- `update_conf(default, user)` -/
+def updateConfOp (j : Json) : Except String Json := do
+  let d ← field j "default" >>= dictOfJson
+  let u ← field j "user" >>= dictOfJson
+  let fl ← flagsOfJson (fieldD j "flags" (mkObj []))
+  return resToJson (fun r => jvalToJson (.obj r)) (updateConf fl.strictMerge d u)
+
+/-- what the documentation says of each key of a step configuration given directly to the class
+    (no `update_conf` rewrite happens at that level); a multiscale step refuses disparity grids -/
+def docOfStep (kindName : String) (cfg : Dict) (grids : Bool) : Json :=
+  match docTable.find? (fun c => c.kind == kindName) with
+  | none => mkObj [("class", Json.null)]
+  | some anyClass =>
+    match Dict.lookup cfg anyClass.methodKey with
+    | some (.str m) =>
+      match docClass? kindName m with
+      | none => mkObj [("class", Json.null)]
+      | some c =>
+        mkObj [("class", Json.str m),
+               ("params", Json.arr (cfg.map (fun kv =>
+                  Json.arr #[Json.str kv.1,
+                    if kv.1 = c.methodKey then Json.str "accept"
+                    else match c.param? kv.1 with
+                      | none => Json.str "reject"
+                      | some p => domToJson (p.dom.dom kv.2)])).toArray),
+               ("verdict", domToJson (Dom.and (paramsVerdict c cfg)
+                  (if kindName == "multiscale" && grids then Dom.reject else Dom.accept)))]
+    | _ => mkObj [("class", Json.null)]
+
+/-- `Abstract<Kind>(**cfg)` on the model, the documentation's view of the same step, and the
+    specification of the returned dictionary -/
+def constructOp (j : Json) : Except String Json := do
+  let kd ← field j "kind" >>= kindOfJson
+  let cfg ← field j "cfg" >>= dictOfJson
+  let l ← imgInfoOfJson (fieldD j "left" (mkObj [("bands", Json.arr #[Json.null])]))
+  let r ← imgInfoOfJson (fieldD j "right" (mkObj [("bands", Json.arr #[Json.null])]))
+  let o ← oracleOf j
+  let res := construct o kd l r cfg
+  return mkObj [("res", resToJson (fun d => jvalToJson (.obj d)) res), ("doc", docOfStep kd.kind cfg (l.dispSource.isStr || r.dispSource.isStr))]
+
+/-- the specification evaluated on a returned step dictionary -/
+def specStep (j : Json) : Except String Json := do
+  let kindName ← field j "kind" >>= strOfJson
+  let user ← field j "user" >>= dictOfJson
+  let result ← field j "result" >>= dictOfJson
+  let kept := userKeysKept user result
+  let cfg := user
+  let defaults :=
+    match docTable.find? (fun c => c.kind == kindName) with
+    | none => true
+    | some anyClass =>
+      match Dict.lookup cfg anyClass.methodKey with
+      | some (.str m) =>
+        match docClass? kindName m with
+        | some c => defaultsAdded c user result
+        | none => true
+      | _ => true
+  return mkObj [("user_keys_kept", Json.bool kept), ("defaults_added", Json.bool defaults)]
+
+def pipelineOp (j : Json) : Except String Json := do
+  let reg ← field j "registry" >>= registryOfJson
+  let user ← field j "user" >>= dictOfJson
+  let l ← field j "left" >>= imgInfoOfJson
+  let r ← field j "right" >>= imgInfoOfJson
+  let m ← cstateOfJson (fieldD j "state" (mkObj []))
+  let o ← oracleOf j
+  let fl ← flagsOfJson (fieldD j "flags" (mkObj []))
+  let res := checkPipelineSection o fl reg user l r m
+  let verdict :=
+    match Dict.lookup user "pipeline" with
+    | none => Dom.accept
+    | some (.obj p) => pipelineVerdict l r p
+    | some _ => Dom.reject
+  return mkObj [
+    ("res", resToJson (fun (x : Dict × CState) =>
+        mkObj [("cfg", jvalToJson (.obj x.1)), ("state", cstateToJson x.2)]) res),
+    ("verdict", domToJson verdict)]
+
+/-- `resultOk` on an implementation output -/
+def specPipeline (j : Json) : Except String Json := do
+  let user ← field j "user" >>= dictOfJson        -- the user's pipeline dictionary
+  let result ← field j "result" >>= dictOfJson    -- the returned pipeline dictionary
+  let perStep := user.map (fun kv =>
+    match kv.2, Dict.lookup result kv.1 with
+    | .obj ucfg, some (.obj rcfg) =>
+      Json.arr #[Json.str kv.1, Json.bool (userKeysKept ucfg rcfg)]
+    | _, _ => Json.arr #[Json.str kv.1, Json.bool false])
+  return mkObj [("result_ok", Json.bool (resultOk user result)),
+                ("same_steps", Json.bool (Dict.keys result == Dict.keys user)),
+                ("kept", Json.arr perStep.toArray)]
+
+def checkConfOp (j : Json) : Except String Json := do
+  let reg ← field j "registry" >>= registryOfJson
+  let sch ← field j "input_schemas" >>= inputSchemasOfJson
+  let files ← field j "files" >>= filesOfJson
+  let user ← field j "user" >>= dictOfJson
+  let m ← cstateOfJson (fieldD j "state" (mkObj []))
+  let fl ← flagsOfJson (fieldD j "flags" (mkObj []))
+  let res := checkConf files sch fl reg user m
+  return mkObj [
+    ("res", resToJson (fun (x : Dict × CState) =>
+        mkObj [("cfg", jvalToJson (.obj x.1)), ("state", cstateToJson x.2)]) res)]
+
+/-- the documented table itself (for the evidence and the translator cross-check of the defaults) -/
+def docTableOp : Json :=
+  Json.arr (docTable.map (fun c =>
+    mkObj [("kind", Json.str c.kind), ("methods", listToJson Json.str c.methods),
+           ("params", Json.arr (c.params.map (fun p =>
+              mkObj [("name", Json.str p.name),
+                     ("default", match p.default with
+                        | .value v => mkObj [("value", jvalToJson v)]
+                        | .optional => Json.str "optional"
+                        | .unsettled => Json.str "unsettled")])).toArray)])).toArray
+
+/-- documented domain of one parameter on a table of values -/
+def docDom (j : Json) : Except String Json := do
+  let kindName ← field j "kind" >>= strOfJson
+  let method ← field j "method" >>= strOfJson
+  let param ← field j "param" >>= strOfJson
+  let vs ← field j "values" >>= listOfJson jvalOfJson
+  match docClass? kindName method with
+  | none => throw s!"no documented class {kindName}/{method}"
+  | some c =>
+    match c.param? param with
+    | none => throw s!"no documented parameter {param}"
+    | some p => return Json.arr (vs.map (fun v => domToJson (p.dom.dom (rewriteLeaf v)))).toArray
+
+def handle (op : String) (j : Json) : Except String Json :=
+  match op with
+  | "C05.accepts" => accepts j
+  | "C05.update_conf" => updateConfOp j
+  | "C05.construct" => constructOp j
+  | "C05.spec_step" => specStep j
+  | "C05.pipeline" => pipelineOp j
+  | "C05.spec_pipeline" => specPipeline j
+  | "C05.check_conf" => checkConfOp j
+  | "C05.doc_table" => .ok docTableOp
+  | "C05.doc_dom" => docDom j
+  | _ => throw s!"unknown op {op}"
 
 end Pandora.Driver.C05
